@@ -206,7 +206,7 @@ Proof. intros H. unfold qupd. destruct (Nat.eqb_spec x k); [contradiction|reflex
 
 Lemma qstep_inv s e : qinv s -> qinv (qstep true s e).
 Proof.
-  intros [Hq Hd]. destruct e as [fd|fd|fd|fd]; cbn [qstep]; destruct (q_open s fd) eqn:Ho; try (split; assumption).
+  intros [Hq Hd]. unfold qstep. destruct e as [fd|fd|fd|fd|fd g0]; cbn [qstep_gen]; destruct (q_open s fd) eqn:Ho; try (split; assumption).
   - (* accept *) split; [|exact Hd]. cbn [q_queue q_gen q_open]. intros g t Ht.
     destruct (Nat.eq_dec g fd) as [->|Hn].
     + destruct (Hq fd t Ht) as [_ H]. congruence.
@@ -223,6 +223,12 @@ Proof.
   - (* close *) split; [|exact Hd]. cbn [q_queue q_gen q_open]. intros g t Ht.
     destruct (Nat.eq_dec g fd) as [->|Hn]; [rewrite qupd_same in Ht; destruct Ht|].
     rewrite !qupd_other in * by exact Hn. apply Hq. exact Ht.
+  - (* a write for generation g0: queued only if g0 holds the number *)
+    cbn [andb negb orb]. destruct (Nat.eqb_spec (q_gen s fd) g0) as [Eg|Ng]; [|split; assumption].
+    split; [|exact Hd]. cbn [q_queue q_gen q_open]. intros g t Ht.
+    destruct (Nat.eq_dec g fd) as [->|Hn].
+    + rewrite qupd_same in Ht. apply in_app_or in Ht. destruct Ht as [Ht|[<-|[]]]; [apply Hq; exact Ht|]. split; [symmetry; exact Eg|exact Ho].
+    + rewrite qupd_other in Ht by exact Hn. apply Hq. exact Ht.
 Qed.
 
 Lemma qrun_inv h : qinv (qrun true h).
@@ -248,6 +254,13 @@ Qed.
 Lemma q_refuted_without_erase :
   q_stale (qrun false [QAccept 7; QQueue 7; QClose 7; QAccept 7; QQueue 7; QFlush 7]) = 1
   /\ q_deliv (qrun false [QAccept 7; QQueue 7; QClose 7; QAccept 7; QQueue 7; QFlush 7]) = [(2, 1); (2, 2)].
+Proof. vm_compute. split; reflexivity. Qed.
+
+(* matched by descriptor number only (the code before fix 0537db4): a write made for a connection that has ended reaches
+   the connection that holds its number now *)
+Lemma q_refuted_by_number_only :
+  q_stale (qrun_gen true false [QAccept 7; QClose 7; QAccept 7; QLate 7 1; QFlush 7]) = 1
+  /\ q_stale (qrun true [QAccept 7; QClose 7; QAccept 7; QLate 7 1; QFlush 7]) = 0.
 Proof. vm_compute. split; reflexivity. Qed.
 
 (* ---- files queued for a connection are closed with it ---- *)
